@@ -901,6 +901,11 @@ def run(chk, arim, rng, quick):
             ans = 9
             lib = f"{kind_}" + ("" if kind_ == "ok" else f"({str(r)[:100]})")
             chk.count(tie_C11_outside_window=f"library:{kind_}")
+        elif kind_ == "SystemError":
+            # numba's prange loop met a slice that does not fit (the only source of SystemError): the model must say TfOutside
+            ans = 9
+            lib = f"SystemError({str(r)[:100]})"
+            chk.count(tie_C11_outside_window="library:SystemError (not generated as outside)")
         elif kind_ == "ok":
             ans = 0
             r = np.asarray(r)
@@ -1045,9 +1050,10 @@ def run(chk, arim, rng, quick):
                 if len(Hs_) not in (2, 3):
                     continue
                 good = Hs_[:-1] if len(Hs_) == 3 else (Hs_[0],)
-                d = pick([np.zeros(good[-1] + 1) + start + dt, np.zeros((2,) + tuple(good)) + start + dt, np.array(start + dt),
-                          np.zeros((good[0] + 1, good[-1])) + start + dt if len(good) == 2 else np.zeros((3, good[-1])) + start + dt,
-                          np.zeros(tuple(good) + (1,)) + start + dt])
+                dv = start + max(t0, 0) * dt        # a delay inside the window (when the shape happens to be accepted)
+                d = pick([np.zeros(good[-1] + 1) + dv, np.zeros((2,) + tuple(good)) + dv, np.array(dv),
+                          np.zeros((good[0] + 1, good[-1])) + dv if len(good) == 2 else np.zeros((3, good[-1])) + dv,
+                          np.zeros(tuple(good) + (1,)) + dv])
             elif e == "not-implemented":
                 tb = (tb[0], pick([dt / 2, dt * 2, dt * 1.5]), n)
             elif e == "assert-negative":
